@@ -878,6 +878,44 @@ def r13m(ctx):
                                f"object, whatever happened to the styles in between (deleted, replaced by a same-named style, merged from another document)")
 
 
+def r13n(ctx):
+    """The Document remembers nothing about its styles.
+
+    A Document keeps two caches and both have their protocol: the parsed parts (`__xmlparts`, dropped by set_part, rebuilt by clone) and the
+    body element (`__body`, reset with them).  Everything else it answers — which names are taken, which style is the default, what the
+    next generated name is — it reads from the parts each time, because the parts change under it: merge_styles_from, insert_style with an
+    explicit name, delete_styles, direct edits of `doc.styles`.  A counter or table kept on the Document "to avoid the scan" is right until
+    the first of those happens; a generated `odfdo_auto_N` then collides with a style that arrived another way, and two automatic styles of
+    one family share a name.  Rule: outside `__init__`, no method of Document stores into an attribute of the object, or into a container
+    held by one, other than the two governed caches and the container.
+    """
+    repo = ctx.repo
+    ctx.rule("R13n", "outside __init__ a Document method stores only into the governed caches (parsed parts, body) and the container", floor=40)
+    c = repo.cls("Document")
+    governed = {"__xmlparts", "_Document__xmlparts", "__body", "_Document__body", "container"}
+    for name, fs in sorted(c.methods.items()):
+        for f in fs:
+            if f.cls is not c or name == "__init__" or f.kind == "nested":
+                continue
+            bad = []
+            for a in walk_no_nested(f.node):
+                tg = a.targets if isinstance(a, ast.Assign) else [a.target] if isinstance(a, (ast.AnnAssign, ast.AugAssign)) else []
+                for t in tg:
+                    for x in ast.walk(t):
+                        if isinstance(x, ast.Attribute) and isinstance(x.value, ast.Name) and x.value.id == "self" and x.attr not in governed \
+                                and (isinstance(x.ctx, ast.Store) or isinstance(getattr(x, "_parent", None), ast.Subscript)) and c.lookup(x.attr) is None:
+                            bad.append(a)
+                if isinstance(a, ast.Call) and isinstance(a.func, ast.Attribute) and a.func.attr in ("setdefault", "update", "append", "add", "extend", "insert", "__setitem__") \
+                        and isinstance(a.func.value, ast.Attribute) and isinstance(a.func.value.value, ast.Name) and a.func.value.value.id == "self" \
+                        and a.func.value.attr not in governed and c.lookup(a.func.value.attr) is None:
+                    bad.append(a)
+            ctx.instance("R13n", f"{f.file}:{f.ident}", "keeps nothing on the document", ok=not bad, nontrivial=bool(bad) or name.startswith(("insert_", "_insert", "add_", "merge_", "delete_", "get_style", "_set_automatic", "_unique")), line=f.node.lineno)
+            for a in bad[:1]:
+                ctx.report("R13n", f, a, norm(a, 50),
+                           f"{f.ident} keeps state on the Document (`{norm(a, 50)}`) that nothing resets when the styles change another way (merge_styles_from, an insert under an "
+                           f"explicit name, delete_styles, edits of doc.styles): what it answers from that state — a free name, a default, an index — is then wrong for the current parts")
+
+
 def run(ctx):
     r13ab(ctx)
     r13c(ctx)
@@ -891,6 +929,7 @@ def run(ctx):
     r13k(ctx)
     r13l(ctx)
     r13m(ctx)
+    r13n(ctx)
 
 
 from ..selftest import Seed, unparse_seed  # noqa: E402
@@ -898,6 +937,8 @@ from ..selftest import Seed, unparse_seed  # noqa: E402
 _DOC = "src/odfdo/document.py"
 _ST = "src/odfdo/styles.py"
 SEEDS = [
+    Seed("the automatic-name index is remembered on the Document", "fault", _DOC,
+         "            self._set_automatic_name(style, family)\n", "            self._set_automatic_name(style, family)\n            self.__dict__.setdefault(\"_auto_idx\", {})\n            self._auto_idx[family] = style.name\n", "R13n"),
     Seed("add_page_break_style runs once per Document object", "fault", _DOC,
          "        if existing := self.get_style(  # noqa: SIM102\n            family=\"paragraph\",\n            name_or_element=\"odfdopagebreak\",",
          "        if getattr(self, \"_pb_done\", False):\n            return\n        self._pb_done = True\n        if existing := self.get_style(  # noqa: SIM102\n            family=\"paragraph\",\n            name_or_element=\"odfdopagebreak\",", "R13m"),
